@@ -619,6 +619,11 @@ def _malformed(res, case):
                     # a QUOTED operator / parenthesis is a string, not an operator: the expression is malformed
                     muts.append(toks[:i] + ["'%s'" % toks[i]] + toks[i + 1:])
                     muts.append(toks[:i] + ['"%s"' % toks[i]] + toks[i + 1:])
+            # the whole expression in parentheses, one of which is written as a quoted string
+            for q in ("'%s'", '"%s"'):
+                muts.append([q % '('] + toks + [')'])
+                muts.append(['('] + toks + [q % ')'])
+                muts.append(['(', '('] + toks + [q % ')', ')'])
             for m in muts:
                 key = ' '.join(m)
                 if key in seen or not m:
